@@ -185,7 +185,7 @@ def run(ctx, replay_case):
         if impl[i] != [f"F ok {exp.hex() or '-'}"]:
             nbad += 1
             ctx.violations.append({"kind": "concrete", "signature": "pcap:trim",
-                                   "what": "pcapng payloads are not trimmed to their own size field with runt packets skipped",
+                                   "what": "pcapng payloads are not taken in the order of the file, each cut to its own size field, with runt packets skipped",
                                    "replay": {"front_end": "pcapng", "payloads": [p.hex() for p in ops[i][1]], "link": ops[i][2],
                                               "expected": exp.hex(), "observed": impl[i][0][:200]}})
     # --- monitor 2: events through each container == events of the carried bytes
